@@ -5,7 +5,9 @@ package main
 // assignments, sync-before-rename.
 
 import (
+	"fmt"
 	"go/types"
+	"strings"
 
 	"golang.org/x/tools/go/ssa"
 )
@@ -351,4 +353,209 @@ func ruleSyncBeforeRename(e *Engine, r *Report, minInst int, pkgs ...string) {
 		})
 	}
 	r.floor("PAIR-sync-before-rename", n, minInst)
+}
+
+// ---------------------------------------------------------------------------
+// OWN-writer-param: io.Writer implementations neither modify nor retain p
+
+type roState struct {
+	e    *Engine
+	seen map[string]bool
+	why  string
+}
+
+// readOnlyUse: every use of slice value v (a Write parameter or a re-slice
+// of it) inside its function only reads it. Passing it on is followed into
+// module callees (depth-bounded); standard-library callees are trusted to
+// honour the io.Writer/hash contracts.
+func (st *roState) readOnlyUse(v ssa.Value, depth int) bool {
+	refs := v.Referrers()
+	if refs == nil {
+		return true
+	}
+	for _, ref := range *refs {
+		switch x := ref.(type) {
+		case *ssa.DebugRef:
+		case *ssa.Slice:
+			if x.X == v && !st.readOnlyUse(x, depth) {
+				return false
+			}
+		case *ssa.IndexAddr:
+			if x.X != v {
+				continue
+			}
+			if rs := x.Referrers(); rs != nil {
+				for _, u := range *rs {
+					if s, ok := u.(*ssa.Store); ok && s.Addr == ssa.Value(x) {
+						st.why = "an element of the written slice is overwritten at " + st.e.ipos(s)
+						return false
+					}
+				}
+			}
+		case *ssa.Phi:
+			key := "phi:" + x.Name() + "@" + fname(x.Parent())
+			if st.seen[key] {
+				continue
+			}
+			st.seen[key] = true
+			if !st.readOnlyUse(x, depth) {
+				return false
+			}
+		case *ssa.Convert, *ssa.ChangeType, *ssa.MakeInterface:
+			// string(p) copies; other conversions alias
+			if cv, ok := x.(*ssa.Convert); ok {
+				if b, isB := cv.Type().Underlying().(*types.Basic); isB && b.Info()&types.IsString != 0 {
+					continue
+				}
+			}
+			if !st.readOnlyUse(x.(ssa.Value), depth) {
+				return false
+			}
+		case *ssa.Store:
+			if x.Val != v {
+				continue
+			}
+			if al := rootAlloc(x.Addr); al != nil && !al.Heap {
+				// spilled to a stack variable: follow its loads
+				if rs := al.Referrers(); rs != nil {
+					for _, u := range *rs {
+						if ld, ok := u.(*ssa.UnOp); ok && ld.X == ssa.Value(al) {
+							key := "ld:" + ld.Name() + "@" + fname(ld.Parent())
+							if st.seen[key] {
+								continue
+							}
+							st.seen[key] = true
+							if !st.readOnlyUse(ld, depth) {
+								return false
+							}
+						}
+					}
+				}
+				continue
+			}
+			st.why = "the written slice is retained (stored) at " + st.e.ipos(x)
+			return false
+		case *ssa.MapUpdate, *ssa.Send:
+			st.why = "the written slice is retained at " + st.e.ipos(x.(ssa.Instruction))
+			return false
+		case *ssa.MakeClosure:
+			for i, b := range x.Bindings {
+				if b == v {
+					fv := x.Fn.(*ssa.Function).FreeVars[i]
+					if !st.readOnlyUse(fv, depth) {
+						return false
+					}
+				}
+			}
+		case ssa.CallInstruction:
+			cc := x.Common()
+			if b, ok := cc.Value.(*ssa.Builtin); ok {
+				switch b.Name() {
+				case "len", "cap", "print", "println":
+				case "copy":
+					if len(cc.Args) == 2 && cc.Args[0] == v {
+						st.why = "the written slice is the destination of copy at " + st.e.ipos(x)
+						return false
+					}
+				case "append":
+					if len(cc.Args) > 0 && cc.Args[0] == v {
+						st.why = "the written slice is the destination of append at " + st.e.ipos(x) + ": append writes into its spare capacity, i.e. into the caller's buffer beyond the slice"
+						return false
+					}
+				default:
+					st.why = "the written slice is passed to builtin " + b.Name() + " at " + st.e.ipos(x)
+					return false
+				}
+				continue
+			}
+			callees := st.e.Callees(x)
+			for ai, a := range cc.Args {
+				if a != v {
+					continue
+				}
+				for _, g := range callees {
+					if p := fnPkg(g); p == nil || !inModule(p) {
+						continue // trusted: stdlib / third-party honour the contract
+					}
+					pi := ai
+					if cc.IsInvoke() {
+						pi = ai + 1 // receiver is Params[0]
+					}
+					if len(g.FreeVars) > 0 && !cc.IsInvoke() && g.Signature.Recv() == nil {
+						// closure call: Params do not include free variables
+					}
+					if pi >= len(g.Params) {
+						continue
+					}
+					key := fmt.Sprintf("%s#%d", fname(g), pi)
+					if st.seen[key] {
+						continue
+					}
+					st.seen[key] = true
+					if depth == 0 {
+						st.why = "the written slice is passed on beyond the analysed depth at " + st.e.ipos(x)
+						return false
+					}
+					if !st.readOnlyUse(g.Params[pi], depth-1) {
+						if st.why != "" && !strings.Contains(st.why, "via ") {
+							st.why += " (via " + fname(g) + ")"
+						}
+						return false
+					}
+				}
+			}
+		case *ssa.Return:
+			// returning an alias of p to the caller: the caller already owns p
+		case *ssa.BinOp, *ssa.UnOp, *ssa.Extract, *ssa.Field, *ssa.Lookup, *ssa.Range, *ssa.TypeAssert, *ssa.If:
+		default:
+			_ = x
+		}
+	}
+	return true
+}
+
+// ruleWriterParam: every Write([]byte) (int, error) method in the given
+// packages treats its argument as read-only and does not retain it
+// (io.Writer: "Write must not modify the slice data, even temporarily.
+// Implementations must not retain p"). A snapshot stream is written through
+// chains of such writers; one that appends to / keeps the caller's buffer
+// silently changes bytes of a later write.
+func ruleWriterParam(e *Engine, r *Report, minInst int, pkgs ...string) {
+	n := 0
+	for _, fn := range e.ScopeFuncs() {
+		p := fnPkg(fn)
+		if p == nil || fn.Name() != "Write" || fn.Signature.Recv() == nil {
+			continue
+		}
+		in := false
+		for _, rel := range pkgs {
+			if e.pkgTypes(rel) == p {
+				in = true
+			}
+		}
+		if !in || !e.IsLive(fn) {
+			continue
+		}
+		sig := fn.Signature
+		if sig.Params().Len() != 1 || sig.Results().Len() != 2 {
+			continue
+		}
+		sl, ok := sig.Params().At(0).Type().Underlying().(*types.Slice)
+		if !ok {
+			continue
+		}
+		if b, ok := sl.Elem().Underlying().(*types.Basic); !ok || b.Kind() != types.Byte {
+			continue
+		}
+		if len(fn.Params) < 2 {
+			continue
+		}
+		n++
+		st := &roState{e: e, seen: map[string]bool{}}
+		ok = st.readOnlyUse(fn.Params[1], 6)
+		r.check(ok, "OWN-writer-param", fname(fn)+" neither modifies nor retains its argument", e.pos(fn.Pos()),
+			"the written slice is only read (copied, hashed, passed to writers that only read it)",
+			"an io.Writer implementation modifies or keeps the caller's buffer: "+st.why)
+	}
+	r.floor("OWN-writer-param", n, minInst)
 }
